@@ -541,8 +541,8 @@ func (s *Subscription) removeReference(rid string) {
 	ref := s.refs[rid]
 	ref.count--
 	if ref.count == 0 {
-		s.c.Unsubscribe(ref.sub, false, s.IsSent(), 1, true)
 		delete(s.refs, rid)
+		s.c.Unsubscribe(ref.sub, false, s.IsSent(), 1, true)
 	}
 }
 
